@@ -1,15 +1,6 @@
 package c07
 
-// knownKinds lists (space separated) the fingerprints of defects of the
-// unchanged tree that have been triaged (same list as in ./KNOWN).  They are
-// reported only when a run shows nothing else.
-const knownKinds = `
-C07/attestationdata-majority/majority-gave-up-early
-C07/attestationdata-first/invalid-returned
-C07/aggregateattestation-first/invalid-returned
-C07/synccommitteecontribution-first/invalid-returned
-C07/beaconblockproposal-first/invalid-returned
-C07/beaconblockroot-first/invalid-returned
-C07/beaconblockheader-first/invalid-returned
-C07/signedbeaconblock-first/invalid-returned
-`
+// knownKinds lists (space separated) fingerprints that are reported only when a
+// run shows nothing else.  Empty: the defects found while building this check
+// (majority threshold, nil data in the first strategies) are fixed in /repo.
+const knownKinds = ``
